@@ -16,7 +16,8 @@ RULE = ("termination cause in {local close, DPR from peer, abrupt peer disconnec
         "distinct = (cause, point, role, schedule hash)")
 
 CAUSES = ["local-close", "peer-dpr", "peer-disconnect", "peer-reset", "refused"]
-POINTS = ["during-connect", "before-ce", "open-idle", "open-inbound-queued", "open-outbound-queued", "consumer-blocked", "closing"]
+POINTS = ["during-connect", "before-ce", "open-idle", "open-inbound-queued", "open-outbound-queued", "consumer-blocked", "closing",
+          "submitter-active"]
 
 
 def applicable(cause, point, role):
@@ -85,6 +86,24 @@ def execute(acc, case):
                         consumer_state["returned"] = ("value", node.get_message())
                     sc.sched.spawn("consumer", consumer)
                     s.run_until(lambda: False, 0.01, "consumer-blocks")
+                if point == "submitter-active":
+                    # an application task keeps submitting while the connection ends; its calls may fail, they must not block
+                    small = DiameterMessage.load(R.encode(N.app_request(556, size=10, host=N.LOCAL[0], realm=N.LOCAL[1], dest_realm=N.PEER[1])))[0]
+                    sub_state = {"calls": 0, "errors": 0, "done": False}
+
+                    def submitter():
+                        for _ in range(400):
+                            try:
+                                node.send_message(small)
+                            except BaseException as ex:
+                                if isinstance(ex, vsched.ControlException):
+                                    raise
+                                sub_state["errors"] += 1
+                            sub_state["calls"] += 1
+                            s.sleep(0.0005)
+                        sub_state["done"] = True
+                    sc.sched.spawn("consumer", submitter)      # named like the consumer so that it is not counted as a node task
+                    s.run_until(lambda: sub_state["calls"] > 3, 1.0, "submitting")
                 if point == "closing":
                     node.close()
                     s.run_until(lambda: node.get_current_state() == "Closing", 5, "closing")
@@ -132,6 +151,13 @@ def execute(acc, case):
             if dead_owner:
                 acc.violation("lock-owned-by-finished-task:%s" % tag, "locks %s" % dead_owner, wit)
                 return
+            if point == "submitter-active":
+                s.run_until(lambda: sub_state["done"], 10.0, "submitter-finishes")
+                if not sub_state["done"]:
+                    acc.violation("send-message-blocks-after-connection-ended:%s" % cause, "an application task calling send_message() around the end of the connection is blocked: %s" % s.blocked_report(),
+                                  dict(wit, blocked=s.blocked_report(), calls=sub_state["calls"]))
+                    return
+                acc.counters["submitter_survived"] += 1
             if point == "consumer-blocked":
                 s.run_until(lambda: consumer_state["returned"] is not None, 10.0, "consumer-returns")
                 if consumer_state["returned"] is None:
